@@ -491,7 +491,9 @@ static void *janet_stream_unmarshal(JanetMarshalContext *ctx) {
 #else
     p->handle = (JanetHandle) janet_unmarshal_int(ctx);
 #endif
-#ifdef JANET_EV_POLL
+#ifndef JANET_WINDOWS
+    /* The duplicated descriptor is new to this thread's event loop */
+    p->flags &= ~JANET_STREAM_UNREGISTERED;
     janet_register_stream(p);
 #endif
     return p;
